@@ -559,8 +559,12 @@ impl DrawState {
             self.lines.first(),
             Some(LineType::Text(_)) | Some(LineType::Empty)
         );
+        // An empty frame as tall as the terminal: the last `write_line` of the padding would scroll
+        // the screen (and the top of the region out of reach); leave the cursor on the last row.
+        let full_screen_padding =
+            self.lines.is_empty() && shift.as_usize() > 0 && shift.as_usize() >= term.height() as usize;
         if padded {
-            for _ in 0..shift.as_usize() {
+            for _ in 0..shift.as_usize() - usize::from(full_screen_padding) {
                 term.write_line("")?;
             }
         }
@@ -621,7 +625,7 @@ impl DrawState {
         if !self.lines.is_empty() {
             self.cursor_below = false;
         } else if *bar_count != VisualLines::default() {
-            self.cursor_below = true;
+            self.cursor_below = !full_screen_padding;
         }
         *bar_count = real_height + shift;
 
